@@ -9,6 +9,7 @@ Only property theorems and non-vacuity examples (plus the two-line bridge lemmas
 -/
 import Bee2V.C10.Stmts
 import Bee2V.C01.PropsChunk
+import Bee2V.C01.PropsSpecHash
 namespace Bee2V.C10
 open Bee2V
 
@@ -143,35 +144,31 @@ example : (outs (hashB C01.chunkToy2) C01.hashStart
 
 /-! ### belt-HMAC -/
 
-/-- CHUNK INDEPENDENCE of belt-HMAC in session form, keys of at most 32 octets -/
-theorem chunk_indep_hmac (C : C01.Cipher) (key : Bytes) (hk : key.length ≤ 32) (cs : List Bytes) (n : Nat)
-    (hb : cs.flatten.length < 2 ^ 64) :
+/-- CHUNK INDEPENDENCE of belt-HMAC in session form, for EVERY key length (keys longer than 32 octets are hashed
+first; `hlen`: the cipher returns 16 octets on 16 octets — true for belt; the bounds are the `size_t` range) -/
+theorem chunk_indep_hmac (C : C01.Cipher) (hlen : ∀ k x : Bytes, x.length = 16 → (C.enc k x).length = 16)
+    (key : Bytes) (hk : key.length < 2 ^ 64) (cs : List Bytes) (n : Nat) (hb : cs.flatten.length < 2 ^ 64) :
     ((hmacB C).step (after (hmacB C) (C01.hmacStart C key) (calls AOp.absorb cs)) (.get n)).2 =
       .data (C01.hmacStepG C (C01.hmacStepA C (C01.hmacStart C key) cs.flatten) n).2 := by
   rw [after_absorbs (hmacB C) (C01.hmacStepA C) (fun _ _ => rfl)]
-  exact congrArg Out.data (C01.hmac_chunk_independent C key hk cs n hb)
-
-/-
-Full statement: `chunk_indep_hmac` / `get_observational_hmac` for EVERY key length.  For keys longer than 32 octets
-`(hmacStart C key).block` is `beltHash(key)` xor pads, whose length is 32 only if the cipher preserves the block
-length through `compr2`; that bookkeeping is not done in C01 (`hmac_chunk_independent_partial` there), so the
-statements below take the length of the start block as a hypothesis (true for every key of at most 32 octets, and,
-by evaluation, for the long keys the correspondence run uses).
--/
-theorem chunk_indep_hmac_partial (C : C01.Cipher) (key : Bytes) (hblk : (C01.hmacStart C key).block.length = 32)
-    (cs : List Bytes) (n : Nat) (hb : cs.flatten.length < 2 ^ 64) :
-    ((hmacB C).step (after (hmacB C) (C01.hmacStart C key) (calls AOp.absorb cs)) (.get n)).2 =
-      .data (C01.hmacStepG C (C01.hmacStepA C (C01.hmacStart C key) cs.flatten) n).2 := by
-  rw [after_absorbs (hmacB C) (C01.hmacStepA C) (fun _ _ => rfl)]
-  exact congrArg Out.data (C01.hmac_chunk_independent_partial C key hblk cs n hb)
+  exact congrArg Out.data (C01.hmac_chunk_independent_anykey C hlen key hk cs n hb)
 
 /-- … and equals the high-level `beltHMAC(mac, src, count, key, len)` -/
-theorem hmacHL_session (C : C01.Cipher) (key : Bytes) (hk : key.length ≤ 32) (cs : List Bytes)
-    (hb : cs.flatten.length < 2 ^ 64) :
+theorem hmacHL_session (C : C01.Cipher) (hlen : ∀ k x : Bytes, x.length = 16 → (C.enc k x).length = 16)
+    (key : Bytes) (hk : key.length < 2 ^ 64) (cs : List Bytes) (hb : cs.flatten.length < 2 ^ 64) :
     ((hmacB C).step (after (hmacB C) (C01.hmacStart C key) (calls AOp.absorb cs)) (.get 32)).2 =
       .data ((C01.hmacHL C cs.flatten key).2.getD []) := by
-  rw [chunk_indep_hmac C key hk cs 32 hb]
+  rw [chunk_indep_hmac C hlen key hk cs 32 hb]
   simp only [C01.hmacHL, Option.getD_some]
+
+/-- for the real cipher: no hypothesis beyond `size_t` -/
+theorem belt_chunk_indep_hmac (key : Bytes) (hk : key.length < 2 ^ 64) (cs : List Bytes) (n : Nat)
+    (hb : cs.flatten.length < 2 ^ 64) :
+    ((hmacB C01.beltCipher).step (after (hmacB C01.beltCipher) (C01.hmacStart C01.beltCipher key)
+      (calls AOp.absorb cs)) (.get n)).2 =
+      .data (C01.hmacStepG C01.beltCipher (C01.hmacStepA C01.beltCipher (C01.hmacStart C01.beltCipher key)
+        cs.flatten) n).2 :=
+  chunk_indep_hmac _ (fun k x h => C01.length_blockEncr k x h) key hk cs n hb
 
 /-- GET-THEN-CONTINUE for belt-HMAC from any state with an empty buffer (in particular after `beltHMACStart`):
 `beltHMACStepG2` / `beltHMACStepV2` (they write `h1_in`, `h1_out`, `s1` and the zero padding of `block`) are
@@ -205,14 +202,25 @@ theorem get_observational_hmac_of_state (C : C01.Cipher) (st0 : C01.HmacSt) (hl 
     | get n => rfl
     | verify t => rfl
 
-/-- after `beltHMACStart(key)`, keys of at most 32 octets (see the comment above for longer keys) -/
-theorem get_observational_hmac (C : C01.Cipher) (key : Bytes) (hk : key.length ≤ 32) :
-    GetObservational (hmacB C) (C01.hmacStart C key) := by
-  refine get_observational_hmac_of_state C _ ?_ ?_ rfl
-  · show 16 ≤ (C01.addBitSizeBlock (C01.zeros 16) 32 ++ _).length
-    rw [List.length_append, C01.Aead.length_addBitSizeBlock _ _ rfl]; omega
-  · simp only [C01.hmacStart, hk, if_true, List.length_map, List.length_append, C01.zeros, List.length_replicate]
-    omega
+/-- after `beltHMACStart(key)`, EVERY key length -/
+theorem get_observational_hmac (C : C01.Cipher) (hlen : ∀ k x : Bytes, x.length = 16 → (C.enc k x).length = 16)
+    (key : Bytes) (hk : key.length < 2 ^ 64) : GetObservational (hmacB C) (C01.hmacStart C key) := by
+  refine get_observational_hmac_of_state C _ ?_ (C01.SpecHashL.length_hmacStart_block C hlen key hk) rfl
+  show 16 ≤ (C01.addBitSizeBlock (C01.zeros 16) 32 ++ _).length
+  rw [List.length_append, C01.Aead.length_addBitSizeBlock _ _ rfl]; omega
+
+/-- for the real cipher -/
+theorem get_observational_beltHMAC (key : Bytes) (hk : key.length < 2 ^ 64) :
+    GetObservational (hmacB C01.beltCipher) (C01.hmacStart C01.beltCipher key) :=
+  get_observational_hmac _ (fun k x h => C01.length_blockEncr k x h) key hk
+
+/-- a key of 37 octets (hashed first), Get in the middle -/
+example : (outs (hmacB C01.chunkToy2) (C01.hmacStart C01.chunkToy2 C01.chunkToyData)
+      [.op (.absorb (C01.chunkToyData.take 21)), .op (.get 32), .op (.verify [9]), .reloc,
+       .op (.absorb (C01.chunkToyData.drop 21)), .op (.get 32)]).getLast? =
+    some (.data (C01.hmacStepG C01.chunkToy2 (C01.hmacStepA C01.chunkToy2 (C01.hmacStart C01.chunkToy2 C01.chunkToyData)
+      C01.chunkToyData) 32).2) := by
+  decide +kernel
 
 example : (outs (hmacB C01.chunkToy2) (C01.hmacStart C01.chunkToy2 [1, 2, 3])
       [.op (.absorb (C01.chunkToyData.take 21)), .op (.get 32), .op (.verify [9]), .reloc,
